@@ -19,6 +19,10 @@ ADV2 = ["x", "xx", "xxx", "x_", "x_x", "X", "x1", "x11", "_x"]
 ADVU = ["\u044f", "\u03b4x", "\u30c7\u30fc\u30bf", "\u00ffz", "\u00e9", "ab", "\u00df", "\u00b5", "\u0100a"]
 
 
+# names with characters that sort before the dot: "c" < "c-x" < "c.y" (legal directory names; the graphs here are built directly)
+ADVS = ["c", "c-x", "c+x", "c x", "c$", "c#1", "cx", "d", "d-"]
+
+
 def abstract_tree(rng, max_nodes):
     """tree over abstract component ids 0..8; node = tuple of ids; root = ('R',)"""
     nodes = [()]
@@ -64,7 +68,8 @@ def _job(args):
         aedges = sorted(E)
         perm = list(range(9))
         rng.shuffle(perm)
-        namings = [FREE, [ADV[perm[i]] for i in range(9)], [ADV2[perm[(i + 3) % 9]] for i in range(9)], [ADVU[perm[(i + 6) % 9]] for i in range(9)]]
+        namings = [FREE, [ADV[perm[i]] for i in range(9)], [ADV2[perm[(i + 3) % 9]] for i in range(9)], [ADVU[perm[(i + 6) % 9]] for i in range(9)],
+                   [ADVS[perm[(i + 1) % 9]] for i in range(9)]]
         kind = "layer" if it % 3 == 2 else "rule"
         per_naming = []
         if kind == "rule":
@@ -80,6 +85,15 @@ def _job(args):
             if nested and rng.random() < 0.3:
                 a, b = rng.choice(nested)                 # a package listed together with one of its own sub modules
                 S = list(dict.fromkeys([b, a] + S))
+                # ... and with a sibling of the package; under the fifth naming the sibling's name sorts BETWEEN the package and its sub modules
+                sib = [x for x in cand if x[:-1] == a[:-1] and x[-1] != a[-1] and x[-1] != b[len(a)] if len(b) > len(a)]
+                if sib and rng.random() < 0.7:
+                    sb = rng.choice(sib)
+                    S = list(dict.fromkeys(S + [sb]))
+                    forced = {a[-1]: "c", sb[-1]: rng.choice(["c-x", "c+x", "c x", "c$", "c#1"])}
+                    rest_names = [n for n in ADVS if n not in forced.values()]
+                    rest_ids = [i for i in range(9) if i not in forced]
+                    namings[4] = [forced[i] if i in forced else rest_names[rest_ids.index(i)] for i in range(9)]
                 O = [x for x in O if x not in S] or O
                 sk = "named"
             for names in namings:
